@@ -197,6 +197,7 @@ def run(ctx, run):
     _leap_rule(ctx, run)
     _no_signed_remainder(ctx, run)
     _invalid_day_test(ctx, run)
+    _conversion_validates(ctx, run)
     _offset_applied(ctx, run)
     _sibling_thresholds(ctx, run)
     _leap_check_after_date(ctx, run)
@@ -650,6 +651,35 @@ def _no_signed_remainder(ctx, run):
         run.holds("RF-SIGN", "RF-SIGN:pdc.c:signed-remainder", "%d remainder operations in pdc.c, none on a possibly negative signed "
                   "operand" % n, "src/pdc.c", nontrivial=False)
     run.floor("remainder operations in pdc.c", n, 3)
+
+
+def _conversion_validates(ctx, run):
+    from .. import atoms
+    """The two PIL -> time_t conversions refuse every label vbi_pil_is_valid_date() refuses (unreal month, day,
+    hour >= 24, minute >= 60): each return of something else than the constant -1 is dominated by a non-zero
+    result of that test.  (timegm()/mktime() would silently normalise 24:00 or xx:60 into another hour or day.)"""
+    P = ctx.prog
+    n = 0
+    for name in ("vbi_pil_lto_to_time", "vbi_pil_to_time"):
+        f = P.need(name, "src/pdc.c")
+        run.touch(f)
+        for bid, i in flow.all_events(f):
+            e = f.exprs[i]
+            if e["k"] != "ret" or not e.get("c"):
+                continue
+            v = ex.const(f, e["c"][0])
+            if v is not None and v in (-1, (1 << 64) - 1, (1 << 32) - 1):
+                continue
+            n += 1
+            ok = any(a.call_cmp("vbi_pil_is_valid_date", "!=", 0) for a in atoms.atoms_at(f, i))
+            key = "RF-DOM:%s:valid-date-before-conversion" % name
+            if ok:
+                run.holds("RF-DOM", key, "`%s` only after vbi_pil_is_valid_date (pil)" % ex.pretty(f, i)[:60], ex.loc(f, i))
+            else:
+                run.violation("RF-DOM", key, "`%s` is reachable without a successful vbi_pil_is_valid_date (pil): a label with hour "
+                              "24..31 or minute 60..63 on a real day is converted (and normalised into another hour or day) instead "
+                              "of being refused" % ex.pretty(f, i)[:60], ex.loc(f, i), witness={"function": name})
+    run.floor("time_t returns of the PIL conversions", n, 2)
 
 
 def _invalid_day_test(ctx, run):
